@@ -121,7 +121,7 @@ package bbolt
 
 // ---------------------------------------------------------------- disk primitives
 
-//@ func ops.writeAt
+//@ func struct_writeAt.writeAt
 //@   trusted
 //@   returns (n, err)
 //@   ensures nwrites == old(nwrites) + 1 && unsynced == old(unsynced) + 1 && lastwriteoff == off && lastwritelen == len(b)
